@@ -51,7 +51,8 @@ SPEC = {
                   "close() that is called, also when the object is not its own iterator (a container whose __iter__ hands out a "
                   "generator or another iterator) and when __iter__ itself raises (close_once, iter_raises_closed); (delivery) call_soon - the function run_app sends every message through from its thread - "
                   "returns only after the send completed on both workers (call_soon_synchronous, decided on what the extractor reads from "
-                  "asyncio/task_group.py `_call_soon` and trio/task_group.py), hence for every pattern of suspending sends the stream accepts "
+                  "asyncio/task_group.py `_call_soon`, trio/task_group.py, and - for a WSGI application mounted through the middleware classes - "
+                  "AsyncioWSGIMiddleware.__call__ / TrioWSGIMiddleware.__call__ of middleware/wsgi.py), hence for every pattern of suspending sends the stream accepts "
                   "exactly the messages run_app issued, in order (accepted_all, output_fidelity_delivered); a call_soon that does not wait "
                   "loses the body when the head's send suspends (fire_and_forget_loses_body). For the run_app shape of the pinned tree (check right after the call) "
                   "the lazy clause and close_once hold only as close_once_partial (start_response called before the callable returned) "
@@ -76,7 +77,7 @@ SPEC = {
             "before/after start_response and during iteration, invalid status/header arguments, empty chunks, double start) x body "
             "sizes limit-1/limit/limit+1 in one or several messages; the shape x size grid is enumerated exhaustively, the rest is "
             "random; e2e: 15 named shapes x {free, paused, stuttering client} x {asyncio, trio} through the real TCPServer and "
-            "TaskGroup (deterministic, every tier), the body limit at/above the boundary, then random applications / requests / pacing. distinct = (family, path/root class, header-repeat class | limit, relation, chunk count | application shape, "
+            "TaskGroup (deterministic, every tier), 8 of them also mounted through AsyncioWSGIMiddleware / TrioWSGIMiddleware (same pacings, both workers), the body limit at/above the boundary (both mounts), then random applications / requests / pacing. distinct = (family, path/root class, header-repeat class | limit, relation, chunk count | application shape, "
             "iterable kind, fault, runner, body relation); non-trivial = a header or non-empty path remainder is present / the body "
             "is within one byte of the limit / the application returns an iterable",
     "trusted": ["asyncio.run_in_executor / run_coroutine_threadsafe and trio.to_thread / from_thread (observed, not modelled)",
@@ -1048,6 +1049,9 @@ E2E_STATUS = ["200 OK", "203 Non-Authoritative Information", "404 Not Found", "5
 E2E_HEADERS = [[], [["Content-Type", "text/plain"]], [["X-A", "b"], ["x-a", "c"]], [["Set-Cookie", "a=1"], ["Set-Cookie", "b=2"]],
                [["X-V", "caf\xe9"]]]
 E2E_PACES = [{"mode": "free"}, {"mode": "paused"}, {"mode": "stutter", "cycles": 2}]
+# shapes of the deterministic grid that are also served through the WSGI middleware classes
+MW_NAMED = ["list", "list_empty_chunks", "generator_eager", "generator_lazy", "iterator_close_lazy", "container_close_generator_lazy",
+            "raise_in_iteration_mid", "no_start_iterator_close"]
 
 
 def _reset_thread_caches() -> None:
@@ -1114,6 +1118,17 @@ def _e2e_session(case: dict) -> dict:
                     obs["runs_done"] += 1
                     done.set()
 
+        if case.get("mount", "builtin") == "middleware":
+            # the application mounted through hypercorn.middleware.{Asyncio,Trio}WSGIMiddleware inside an ASGI application: the
+            # middleware, not the worker's TaskGroup, builds the `sync_spawn` / `call_soon` pair WSGIWrapper runs the application with
+            from hypercorn.app_wrappers import ASGIWrapper
+            from hypercorn.middleware import AsyncioWSGIMiddleware, TrioWSGIMiddleware
+            mw = (AsyncioWSGIMiddleware if worker == "asyncio" else TrioWSGIMiddleware)(app, case["max"])
+            inner = [k for k, v in vars(mw).items() if isinstance(v, WSGIWrapper)]
+            if len(inner) != 1:
+                raise RuntimeError(f"harness: {type(mw).__name__} holds {len(inner)} WSGIWrapper objects")
+            getattr(mw, inner[0]).__class__ = Served       # observation only (see above); the object and its state are the middleware's own
+            return ASGIWrapper(mw)
         return Served(app, case["max"])
 
     async def client(io):
@@ -1198,19 +1213,28 @@ def gen_e2e(ctx: Ctx, n: int) -> List[dict]:
                 req = post if (len(cases) + k) % 3 == 0 else get
                 cases.append({"family": "e2e", "name": name, "worker": worker, "pace": pace, "max": 8, "root_path": "/app", "request": req,
                               "app": grid[name]})
+    # the same through the WSGI middleware classes (a WSGI application mounted inside an ASGI one): they hand WSGIWrapper their own
+    # sync_spawn / call_soon, so every clause is checked for them as for the built-in mode
+    for name in MW_NAMED:
+        for worker in ("asyncio", "trio"):
+            for k, pace in enumerate(E2E_PACES):
+                req = post if (len(cases) + k) % 3 == 0 else get
+                cases.append({"family": "e2e", "name": name, "worker": worker, "mount": "middleware", "pace": pace, "max": 8, "root_path": "/app",
+                              "request": req, "app": grid[name]})
     # the body limit through the whole server: at the limit → served, above → 400 without calling the application
     for worker in ("asyncio", "trio"):
-        for size in (8, 9):
-            cases.append({"family": "e2e", "name": "limit", "worker": worker, "pace": {"mode": "free"}, "max": 8, "root_path": "",
-                          "request": dict(post, target="/", body="x" * size, cuts=[4, 8]), "app": grid["list"]})
+        for mount in ("builtin", "middleware"):
+            for size in (8, 9):
+                cases.append({"family": "e2e", "name": "limit", "worker": worker, "mount": mount, "pace": {"mode": "free"}, "max": 8, "root_path": "",
+                              "request": dict(post, target="/", body="x" * size, cuts=[4, 8]), "app": grid["list"]})
     for _ in range(n):
         body = "".join(chr(rng.randint(0, 255)) for _ in range(rng.choice([0, 0, 3, 8])))
         req = {"method": "POST" if body else rng.choice(["GET", "POST"]), "target": rng.choice(["/", "/x?q=1", "/a/b", "/p%20q"]),
                "headers": [["Host", "h"]] + rng.sample([["X-A", "1"], ["x-a", "2"], ["Accept", "*/*"]], rng.randint(0, 3)), "body": body,
                "cuts": [rng.randint(0, 8)]}
         pace = rng.choice(E2E_PACES + [{"mode": "stutter", "cycles": rng.randint(1, 4)}])
-        cases.append({"family": "e2e", "worker": rng.choice(["asyncio", "trio"]), "pace": pace, "max": 8, "root_path": "", "request": req,
-                      "app": _e2e_app(rng, well_behaved=rng.random() < 0.8)})
+        cases.append({"family": "e2e", "worker": rng.choice(["asyncio", "trio"]), "mount": rng.choice(["builtin", "middleware"]), "pace": pace, "max": 8,
+                      "root_path": "", "request": req, "app": _e2e_app(rng, well_behaved=rng.random() < 0.8)})
     return cases
 
 
@@ -1224,7 +1248,8 @@ def check_e2e(ctx: Ctx, cases: List[dict]) -> None:
             pieces, js = _e2e_request(c)
             body = s2b(c["request"]["body"])
             reqs.append({"cmd": "c17.run_app", "variant": variant, "kind": "http", "max": c["max"], "scope": dict(driver_scope(js), server=None, client=None),
-                         "msgs": [[b2s(body), False]], "app": model_app(c["app"]), "worker": c["worker"],
+                         "msgs": [[b2s(body), False]], "app": model_app(c["app"]),
+                         "worker": c["worker"] + ("_middleware" if c.get("mount") == "middleware" else ""),
                          "susp": [c["pace"]["mode"] != "free"]})
         model = ctx.model(reqs)
     final = {"type": "body", "body": "", "more": False}
@@ -1235,10 +1260,14 @@ def check_e2e(ctx: Ctx, cases: List[dict]) -> None:
         cl = classify(c["app"])
         too_large = len(body) > c["max"]
         sig = {"family": "e2e", "worker": c["worker"], "pace": c["pace"]["mode"]}
+        mount = c.get("mount", "builtin")
+        if mount != "builtin":
+            sig["mount"] = mount
+        ctx.count("e2e.mount", f"{mount}:{c['worker']}:{c['pace']['mode']}")
         ctx.count("e2e.worker", c["worker"])
         ctx.count("e2e.pace", c["pace"]["mode"])
         ctx.count("e2e.shape", "too_large" if too_large else cl["shape"] + ("+fault" if cl["iter_fault"] else ""))
-        ctx.distinct(["e2e", c["worker"], c["pace"]["mode"], cl["shape"], c["app"]["kind"], c["app"].get("inner"), cl["iter_fault"], too_large,
+        ctx.distinct(["e2e", c["worker"], mount, c["pace"]["mode"], cl["shape"], c["app"]["kind"], c["app"].get("inner"), cl["iter_fault"], too_large,
                       c["request"]["method"]])
         ctx.sample(c, cap=3)
         brief = {"responses": o["parsed"]["responses"], "parse_error": o["parsed"]["error"], "handler_error": o["error"], "logged": o["exceptions"],
